@@ -45,9 +45,10 @@ class Engine(CoreMixin, ExprMixin, CallMixin, LibMixin, StmtMixin, ReMixin):
         self.callsites = {}
         self.callees = set()
         self.assumptions_used = set()
-        self.allocated = []
         self.strip_cache = {}
         self.lemmas_used = set()
+        self.callee_exc_names = set()
+        self._relevant_exc = None
         self.inline_depth = 0
         self.bound_aliases = {}
         self.loop_ordinals = {}
@@ -156,8 +157,13 @@ class Engine(CoreMixin, ExprMixin, CallMixin, LibMixin, StmtMixin, ReMixin):
         txt = " ".join(list(con.ensures.values()) + [e for l in con.loops.values() for e in (l.get("invariant", {}).values() if isinstance(l.get("invariant", {}), dict) else l.get("invariant", []))])
         if ".join(" in txt:
             self.join_empty(smt.EmptySeq(STR))
+        alltxt = txt + " ".join(e for d in con.raises.values() for e in d.values())
+        if "cons(" in alltxt:
+            self.define_spec("consumed")
+            self.define_spec("cons")
         outs = self.exec_block(self.found.node.body, st)
         self.lemma_obligations()
+        self.lemma_cons()
         for o in outs:
             if o.st.infeasible():
                 continue
@@ -182,6 +188,15 @@ class Engine(CoreMixin, ExprMixin, CallMixin, LibMixin, StmtMixin, ReMixin):
             goal = smt.Eq(self.join_empty(smt.Concat(xs, smt.Unit(x))), smt.Concat(self.join_empty(xs), x))
             self.oblige(st, goal, "%s#lemma.joinr_append" % self.short, "lemma", self.first_line,
                         "''.join(xs + [x]) == ''.join(xs) + x")
+
+    def lemma_cons(self):
+        if "cons_append" in self.lemmas_used:
+            xs = SV(ListT(Ref()), [self.ctx.const("lem_rs", smt.seq(INT))])
+            o = SV(Ref(), [self.ctx.const("lem_o", INT)])
+            st = State()
+            goal = smt.Eq(self.spec_app("cons", [SV(xs.ty, [smt.Concat(xs.ts[0], smt.Unit(o.ts[0]))])], st).ts[0],
+                          smt.Concat(self.spec_app("cons", [xs], st).ts[0], self.spec_app("consumed", [o], st).ts[0]))
+            self.oblige(st, goal, "%s#lemma.cons_append" % self.short, "lemma", self.first_line, "cons(xs + [o]) == cons(xs) + consumed(o)")
 
     def post_env(self, st):
         env = dict(self.params_env)
@@ -222,6 +237,13 @@ class Engine(CoreMixin, ExprMixin, CallMixin, LibMixin, StmtMixin, ReMixin):
                 self.spec_mode -= 1
         st.env.update(new)
 
+    def frame_object(self, p, st):
+        """object named in a modifies entry: a parameter or a bound module-level singleton"""
+        obj = self.params_env[p] if p in self.params_env else self.global_value(p, st)
+        if obj.ty.kind == "opt":
+            obj = opt_inner(obj)
+        return obj
+
     def check_frame(self, st, where):
         """every heap field written must be covered by the modifies clause"""
         con = self.contract
@@ -238,14 +260,13 @@ class Engine(CoreMixin, ExprMixin, CallMixin, LibMixin, StmtMixin, ReMixin):
             if all(a.s == b.s for a, b in zip(cur.ts, ent.ts)) or f in whole:
                 continue
             goal = []
+            cur = self.name_sv(st, cur, "Hf_" + f)
             for a, b in zip(cur.ts, ent.ts):
                 allowed = b
                 for p in at.get(f, []):
-                    obj = self.params_env[p]
-                    if obj.ty.kind == "opt":
-                        obj = opt_inner(obj)
+                    obj = self.frame_object(p, st)
                     allowed = smt.Store(allowed, obj.ts[0], smt.Select(a, obj.ts[0]))
-                for n in self.allocated:      # objects created by this call are outside the frame
+                for n in st.allocated:      # objects created by this call are outside the frame
                     allowed = smt.Store(allowed, n, smt.Select(a, n))
                 goal.append(smt.Eq(a, allowed))
             self.oblige(st, smt.And(*goal), "%s#frame.%s" % (self.short, f), "frame", self.curline,
